@@ -57,6 +57,17 @@ claim("C03", "other",
       "literal, not that an engine stores it (engine-side encoding/collation is out of reach).",
       "replace-chain extraction + dialect lexer oracle (exhaustive finite case split) + TIR dataflow", "DESIGN.md section 4, C03")
 
+claim("C04", "other",
+      "Iden::quoted is shown to double exactly the closing quote byte of the whole name and the default Iden::prepare to frame "
+      "it with the two quote characters; the backend QUOTE constants are compared with the dialect's identifier-quoting rule. "
+      "A dataflow over the template IR of every writer function (all backends, query and schema renderers) shows that whatever "
+      "is emitted between a left-quote and the next right-quote is a quote-free literal or Iden::quoted with that quote, and "
+      "that every identifier written raw is one of seven reviewed raw-by-contract sinks. No impl of Iden overrides prepare/"
+      "quoted.",
+      "Self-describing rule: code says 'this is a quoted identifier' by writing the quote characters. Engine-side decoding = "
+      "un-doubling the quote (specs/lexical.json). Derive-generated fast paths are C19.",
+      "structural extraction of Iden::quoted + TIR dataflow over quote-delimited regions", "DESIGN.md section 4, C04")
+
 claim("C06", "other",
       "Every rewriting action of the condition builder (unwrap a single-member group, concatenate member lists, add as member, "
       "wrap) is located on every control path and its path condition is tabulated over the complete abstract domain of groups "
